@@ -122,5 +122,18 @@ class GreedyRewritePatternApplier(RewritePattern):
         self.rewrite_patterns = list(patterns)
 
 
+REWRITER_LOG = []  # calls made through the (static) xdsl.rewriter.Rewriter API, in order
+
+
 class Rewriter:
-    pass
+    """recorder, like PatternRewriter: entries go to the module-level REWRITER_LOG (code under contract creates its own
+    Rewriter() instances, so the log cannot live on an instance the contract could reach)"""
+
+    def insert_op(self, ops, insertion_point=None):
+        REWRITER_LOG.append(("insert_op", _as_list(ops), insertion_point))
+
+    def erase_op(self, op, safe_erase=True):
+        REWRITER_LOG.append(("erase_op", op))
+
+    def replace_op(self, op, new_ops, new_results=None, safe_erase=True):
+        REWRITER_LOG.append(("replace_op", op, _as_list(new_ops), new_results))
